@@ -160,11 +160,12 @@ impl Repl {
 
         if self.depth < 0 {
             let loc = self.loc.clone();
-            let result = parse_sexp(loc, input_taken.bytes())
-                .map(|_v| {
-                    panic!("too many parens but parsed anyway");
-                })
-                .err_into();
+            // More ')' than '(' were typed.  Usually the reader reports that; when
+            // it does not (the extra ')' sits in a comment or a string) it is still
+            // an error to report, not a reason to panic.
+            let result = parse_sexp(loc.clone(), input_taken.bytes())
+                .err_into()
+                .and_then(|_v| Err(CompileErr(loc, "too many close parens".to_string())));
             self.input_exp = "".to_string();
             self.depth = 0;
             return result;
